@@ -47,7 +47,7 @@ def classify(findings, prop, variant, f):
     return None
 
 
-def run(ck, prop, stream, families_note, variants=None, judge=None, theorems=None, level_text=""):
+def run(ck, prop, stream, families_note, variants=None, judge=None, theorems=None, level_text="", extra=None):
     """variants: list of variant names judged by this property (None = all)."""
     findings = [k for k in load_findings() if prop in k.get("properties", [k.get("property")])]
     mods = theorems or []
@@ -172,6 +172,8 @@ def run(ck, prop, stream, families_note, variants=None, judge=None, theorems=Non
                       "how_to_replay": f"bin/check {prop} --replay <this file>  (runs `case` on the real code of every variant and on Spec.run)"})
     ck.assumptions += ["well-formedness along the run (aligned in-bounds accesses, targets on instruction boundaries, < 250 instructions, termination within the fuel) is decided by Spec.run; programs outside it are skipped",
                        "the tick budget and the wall-clock watchdog decide `hang`"]
+    if extra:
+        extra(ck)
     ck.finish("proof" if mods else "exploration")
 
 
